@@ -5,6 +5,7 @@
 //!   c08:uri-parse  parse_uri of a raw string (+ re-serialisation oracle)
 //!   c08:method     StoreKeyMethod::parse_uri
 //!   c08:life       provision / open / rekey / remove sequences over one file-backed SQLite store
+//!   c08:pgopts     PostgresStoreOptions::new: the numbers / identifiers / two derived URIs of a store URI (c08pg.rs)
 use crate::canon::{err_name, jerr};
 use crate::rawsql::{RawDb, Val};
 use crate::rng::Rng;
@@ -21,6 +22,10 @@ use std::collections::{BTreeMap, HashMap, HashSet};
 /// second wave: config-row / file errors of `open`, SQLite URI parameters, generated keys, shared handles, damaged profile keys
 #[path = "c08x.rs"]
 mod x;
+
+/// coverage gap of the URI clause: `PostgresStoreOptions::new` (the second anchor), kind `c08:pgopts`
+#[path = "c08pg.rs"]
+mod pg;
 
 type Feat = BTreeMap<String, u64>;
 
@@ -781,6 +786,7 @@ pub fn exec(case: &Value, tag: &str) -> Value {
         "c08:uri-parse" => exec_uri_parse(case),
         "c08:method" => exec_method(case),
         "c08:life" => exec_life(case, tag),
+        "c08:pgopts" => pg::exec_pgopts(case),
         k => x::exec(case, tag).unwrap_or_else(|| json!({"out": {"err": format!("unknown kind {}", k)}, "oracle": [], "feat": {}})),
     }
 }
@@ -1298,5 +1304,8 @@ pub fn gen(r: &mut Rng, thorough: bool, count: Option<usize>) -> Vec<Value> {
     // second wave (an explicit --count scales it like the rest)
     let scale = match count { Some(c) => (c as f64) / (if thorough { 9000.0 } else { 530.0 }), None => 1.0 };
     out.extend(x::gen(r, thorough, scale));
+    // PostgresStoreOptions::new (after everything else: the cases drawn before it keep their seeds)
+    let ng = ((if thorough { 3000.0 } else { 150.0 }) * scale).round() as usize;
+    out.extend(pg::gen_pgopts(r, ng));
     out
 }
